@@ -26,7 +26,7 @@ func init() {
 		Plan: func(tier string) []Child {
 			var out []Child
 			if tier == "quick" {
-				cfg := [][2]int{{1, 1}, {2, 4}, {3, 2}, {5, 5}, {8, 1}, {16, 16}}
+				cfg := [][2]int{{1, 1}, {2, 4}, {3, 2}, {5, 5}, {8, 1}, {16, 16}, {4, 64}}
 				for i, k := range cfg {
 					out = append(out, Child{Flavour: "plain", NCPU: k[0], GOMAXPROCS: k[1], Params: map[string]string{"sched": fmt.Sprint(1 + i%2)}})
 				}
@@ -40,6 +40,7 @@ func init() {
 				}
 			}
 			out = append(out, Child{Flavour: "race", NCPU: 4, GOMAXPROCS: 4, Params: map[string]string{"sched": "1", "race": "1"}})
+			out = append(out, Child{Flavour: "plain", NCPU: 4, GOMAXPROCS: 64, Params: map[string]string{"sched": "1"}}, Child{Flavour: "plain", NCPU: 7, GOMAXPROCS: 128, Params: map[string]string{"sched": "2"}})
 			return out
 		},
 		Run: runC01,
@@ -57,7 +58,11 @@ func runC01(c *mon.Ctx) {
 	cfgTag := fmt.Sprintf("W=%d|P=%d", w, gmp)
 	prng := c.Rand("polys/" + cfgTag)
 	polys := makePolys(env, prng, 10, 0, 1, 2, 3, 4, 5)
-	sizes := append(sizesAround(w), 100, 257, 1000)
+	constPolys := makePolys(env, prng, 3, 1, 2, 4) // zero, constant, all r-1
+	sizes := append(sizesAround(w), 100, 129, 257, 1000, 1025)
+	if gmp > 16 {
+		sizes = []int{1, 2, 3, 7, 47, 49, 127, 129, 255, 321, 1025} // odd sizes around the MSM window thresholds: GOMAXPROCS far above NumCPU
+	}
 	if c.Thorough() && w%5 == 1 {
 		sizes = append(sizes, 5000)
 	}
@@ -83,6 +88,12 @@ func runC01(c *mon.Ctx) {
 				if rng.Intn(4) == 0 {
 					k := 1 + rng.Intn(2)
 					ps = polys[rng.Intn(len(polys)-k):][:k]
+				}
+				if caseNo%7 == 5 {
+					ps = constPolys // every opened polynomial is constant: g(X) is identically zero, D is the identity
+				}
+				if caseNo%7 == 6 {
+					ps = append(append([]*polyDef(nil), constPolys...), polys[0]) // constants mixed with one random polynomial
 				}
 				s := genStatement(env, rng, n, pat, ps)
 				c01one(c, env, s, w, gmp, rng, caseNo, &refBudget)
